@@ -85,6 +85,11 @@ def _chat(version, text):
     return v
 
 
+def default_outside(version):
+    other = 47 if version != 47 else 340
+    return next(v for v in (757, 340, 47, 498) if v not in (version, other))
+
+
 def conversation(kind, version):
     """-> (server specs per TCP connection, client kwargs, entry)"""
     if kind == 'status':
@@ -101,6 +106,20 @@ def conversation(kind, version):
                            'end': 'disconnect'}}],
                 {'allowed_versions': {version, other},
                  'initial_version': version}, 'connect')
+    if kind == 'negotiate_out':
+        # the default version is NOT one of the allowed ones (nothing says
+        # it must be): the fallback after an unanswered status query still
+        # uses it
+        other = 47 if version != 47 else 340
+        return ([{'version': version,
+                  'status': {'reply': status_json(version),
+                             'close_after_reply': True}},
+                 {'version': version, 'adopt_version': True,
+                  'login': [('success',)],
+                  'play': {'bursts': [[('keep_alive', {'keep_alive_id': 5})]],
+                           'end': 'disconnect'}}],
+                {'allowed_versions': {version, other},
+                 'initial_version': default_outside(version)}, 'connect')
     if kind in ('compress0', 'compress256'):
         t = 0 if kind == 'compress0' else 256
         return ([{'version': version,
@@ -120,8 +139,8 @@ def conversation(kind, version):
     raise ValueError(kind)
 
 
-KINDS = ['status', 'negotiate', 'compress0', 'compress256', 'encrypt',
-         'play']
+KINDS = ['status', 'negotiate', 'negotiate_out', 'compress0',
+         'compress256', 'encrypt', 'play']
 
 
 def run(kind, version, cut_link, cut_n, plan):
@@ -252,13 +271,16 @@ def cut_case(ctx, case):
                      'exits=%d' % o.exits, 1)
     else:
         fallback = False
-        if kind == 'negotiate' and li == 0:
+        if kind.startswith('negotiate') and li == 0:
             # documented fallback: a further connection with the default
             # version logging in
+            dflt = version if kind == 'negotiate' else \
+                default_outside(version)
             hs = [s.handshake for s in r['servers'][1:] if s.handshake]
             fallback = any(h['next_state'] == 2 and
-                           h['protocol_version'] == version for h in hs)
-        status_done = kind == 'negotiate' and li == 0 and complete >= 1
+                           h['protocol_version'] == dflt for h in hs)
+        status_done = kind.startswith('negotiate') and li == 0 and \
+            complete >= 1
         if not reported and not fallback and not status_done:
             ctx.fail('cut', 'H3-silent', case,
                      'no error reported, no fallback connection; exits=%d'
@@ -288,7 +310,7 @@ def cut_points(ends, N, quick):
 
 
 def t_conv(ctx, kind, version, shard, nshards, quick):
-    nlinks = 2 if kind == 'negotiate' else 1
+    nlinks = 2 if kind.startswith('negotiate') else 1
     plans = ['whole', 'one', [3, 1, 7, 2, 50]]
     work = []
     for li in range(nlinks):
@@ -326,7 +348,7 @@ def t_random(ctx, n):
 
     def body(c, t):
         kind, version, li, n, plan = t
-        if kind != 'negotiate':
+        if not kind.startswith('negotiate'):
             li = 0
         ends, N, full = boundaries(kind, version, li)
         case = {'kind': kind, 'version': version, 'link': li,
